@@ -179,6 +179,16 @@ pub fn near_limits(r: &mut Rng, f: &mut dyn FnMut(&str)) {
     }
     // identifier counts around 8/16/32/64 and up to what fits MAX_LENGTH, in the prerelease, in
     // the build metadata and in both
+    // every count of one-character identifiers up to (and one beyond) what fits MAX_LENGTH
+    for n in 1..=127usize {
+        let ids = vec!["a"; n].join(".");
+        f(&format!("1.2.3-{}", ids));
+        f(&format!("v0.0.0+{}", ids));
+        if n % 2 == 0 {
+            let half = vec!["7"; n / 2].join(".");
+            f(&format!("1.2.3-{}+{}", half, half));
+        }
+    }
     for n in [7usize, 8, 9, 15, 16, 17, 31, 32, 33, 63, 64, 65, 100, 120] {
         let ids = |r: &mut Rng, n: usize| -> String { (0..n).map(|_| *r.pick(&["a", "0", "7", "-", "x", "Z"])).collect::<Vec<_>>().join(".") };
         let (a, b, c) = (ids(r, n), ids(r, n), ids(r, n / 2));
